@@ -313,11 +313,29 @@ ID_RULE = ("one evaluation = one thread lifetime (claim an ID, run, exit) in wav
            "claimed) and (capacity, probe pattern) pairs plus (delay point, phase) pairs that overlapped a claim")
 
 
+def storm_jobs(tier, seed):
+    caps = [2, 3, 8] if tier == "quick" else [2, 3, 5, 8, 16]
+    # the ID table kept full and over-subscribed by 3N drivers, no injected delays (narrow races in the claim loop)
+    jobs = thr_jobs("churnstorm", caps, seed + 17, 3 if tier == "quick" else 16, 2 if tier == "quick" else 10, cost=8)
+    # N threads released from a spin barrier onto one probe position
+    jobs += thr_jobs("storm", caps, seed + 9, 2 if tier == "quick" else 12, 1 if tier == "quick" else 4, cost=4)
+    return jobs
+
+
+STORM_RULE = ("; in addition claim storms without injected delays: mode=churnstorm keeps the ID table full with 3N "
+              "drivers that start short-lived workers back to back (checks range, uniqueness, expiry of earlier "
+              "owners' heartbeats, progress), mode=storm releases exactly N threads from a spin barrier onto one "
+              "probe position")
+
+
 def _id_check(prop, tier, seed, t0, caps_q, floors):
     caps = caps_q if tier == "quick" else THOROUGH_CAPS
     runs, scale = (6, 2) if tier == "quick" else (40, 10)
     jobs = thr_jobs("id", caps, seed, runs, scale, extra={"hang_s": 20})
-    return _mk(prop, tier, seed, t0, jobs, floors, rule=ID_RULE, assumptions=THR_ASSUME)
+    jobs += storm_jobs(tier, seed)
+    floors = dict(floors)
+    floors.update({"churn_storm_workers": 20000, "storm_rounds": 5000})
+    return _mk(prop, tier, seed, t0, jobs, floors, rule=ID_RULE + STORM_RULE, assumptions=THR_ASSUME)
 
 
 def spec_C05(prop, tier, seed, t0):
